@@ -62,7 +62,12 @@ fn check_htyp_in(
     // minimal message with the optional fields HTYP announces
     let mut b = vec![];
     if storage {
-        b.extend_from_slice(b"DLT\x01\x01\x02\x03\x04\x05\x06\x07\x08STO\0");
+        if fidx % 2 == 1 {
+            // storage time: the seconds of the message's own time stamp field, no microseconds
+            b.extend_from_slice(b"DLT\x01\x0d\x0c\x0b\x0a\0\0\0\0STO\0");
+        } else {
+            b.extend_from_slice(b"DLT\x01\x01\x02\x03\x04\x05\x06\x07\x08STO\0");
+        }
     }
     let start = b.len();
     b.extend_from_slice(&[h, 0x5a, 0, 0]);
@@ -217,9 +222,10 @@ fn check_msin_in_message(b: u8) -> Result<(), Violation> {
     } else {
         vec![vec![1, 2, 3, 4, 5, 6]]
     };
-    for (big, payload) in payloads.iter().flat_map(|p| [(false, p), (true, p)]) {
+    for ((big, blank), payload) in payloads.iter().flat_map(|p| [((false, false), p), ((true, false), p), ((false, true), p), ((true, true), p)]) {
         let mut bytes = vec![0x21 | if big { MSBF } else { 0 }, 0x33, 0, 0, b, 0];
-        bytes.extend_from_slice(b"APP\0CTX\0");
+        // (ids "APP" / "CTX", or both id fields blank: with MSIN 0 the whole extended header is ten zero bytes)
+        bytes.extend_from_slice(if blank { b"\0\0\0\0\0\0\0\0" } else { b"APP\0CTX\0" });
         bytes.extend_from_slice(payload);
         let len = bytes.len() as u16;
         bytes[2..4].copy_from_slice(&len.to_be_bytes());
